@@ -28,7 +28,7 @@ def cases(draw, tier):
         sc = draw(gen.state_case(types=[t], n=(8, 9), nh=(1, 3), scales=[0.05, 0.5, 1.0], bound=40.0))
         sc["large"] = True
     else:
-        sc = draw(gen.state_case(types=[t], n=(1, nmax), nh=(1, 4), na=(1, 3), scales=[0.05, 0.5, 0.5, 2.0, 2.0], bound=60.0))
+        sc = draw(gen.state_case(types=[t], n=(1, nmax), nh=(1, 4), na=(1, 3), scales=[0.05, 0.5, 0.5, 2.0, 2.0, 2.0, 8.0, 20.0], bound=60.0))
     n = sc["n"]
     N = draw(st.integers(1, 8))
     U01 = st.floats(0, 1, exclude_max=True, allow_nan=False, width=64)
@@ -48,6 +48,8 @@ def cases(draw, tier):
         else:
             b = draw(st.sampled_from(allb)) if draw(st.booleans()) else rows[draw(st.integers(0, i - 1))]["basis"]
         rows.append({"basis": b, "u": draw(U01)})
+        if draw(st.integers(0, 9)) == 0:
+            rows[-1]["rare"] = True
     big = draw(st.integers(0, 19)) == 0
     if big:
         # a large batch concentrated in few bases (size-dependent code paths such as chunked evaluation of a basis group)
@@ -65,7 +67,9 @@ def cases(draw, tier):
     return c
 
 
-MIN_ROW_PROB = 1e-9     # d(-log p) is ill-conditioned at p ~ 0 (u within 1e-9 of 1 can select such an outcome): excluded and counted
+MIN_ROW_PROB = 1e-6     # threshold on 1/condition: rows whose rotated amplitude is a sum cancelling to < 1e-6 of its terms are ill-conditioned for
+                        # ANY float64 implementation (d(-log p) amplifies the rounding of the terms): excluded and counted.  A tiny probability that
+                        # is NOT due to cancellation (strongly polarised states) is well-conditioned and stays in the domain.
 
 
 def born_rows(case, with_probs=False):
@@ -90,8 +94,19 @@ def born_rows(case, with_probs=False):
                 p = (U @ psi).abs() ** 2
             cdf = torch.cumsum(p / p.sum(), 0)
             k = int(torch.searchsorted(cdf, torch.tensor(r["u"], dtype=R.F64), right=True).clamp(max=2 ** n - 1))  # first outcome with cdf > u: never a zero-probability one
+            if r.get("rare"):
+                # deliberately the LEAST likely outcome with non-zero probability (data need not be typical of the model)
+                pos = torch.where(p > 0, p, torch.full_like(p, float("inf")))
+                k = int(torch.argmin(pos))
             out.append((r["basis"], k))
-            probs.append(float(p[k] / p.sum()))
+            # 1 / condition number of the rotated probability: |sum of terms| / sum |terms|
+            if sc["type"] == "density":
+                terms = (U[k][:, None] * rho * U[k].conj()[None, :])
+                cond = float(p[k] / (terms.abs().sum() + 1e-300))
+            else:
+                terms = U[k] * psi
+                cond = float(terms.sum().abs() / (terms.abs().sum() + 1e-300))
+            probs.append(cond)
     if with_probs:
         return out, probs
     return out
@@ -184,6 +199,13 @@ def check(case):
             r2 = check_round(c2, state)
         except PropertyViolation as v:
             raise PropertyViolation("after-inplace-update:" + v.bucket, "after an in-place parameter update of the same object: " + v.message, v.detail)
+        gen.set_net(state.rbm_am, case["state"]["am"])
+        if case["state"].get("ph"):
+            gen.set_net(state.rbm_ph, case["state"]["ph"])
+        try:
+            check_round(case, state)
+        except PropertyViolation as v:
+            raise PropertyViolation("after-second-inplace-update:" + v.bucket, "after a second in-place parameter update (back to the first values): " + v.message, v.detail)
     return r
 
 
@@ -192,7 +214,7 @@ def check_round(case, state):
     n, t = sc["n"], sc["type"]
     rows, probs = born_rows(case, with_probs=True)
     if min(probs) < MIN_ROW_PROB:
-        return {"nontrivial": False, "excluded": 1, "labels": ["excluded:row-probability<1e-9"]}
+        return {"nontrivial": False, "excluded": 1, "labels": ["excluded:ill-conditioned-row"]}
     N = len(rows)
     samples = R.rows_from_indices([k for _, k in rows], n)
     bases = np.array([list(b) for b, _ in rows]).reshape(N, n)
